@@ -211,11 +211,32 @@ pub fn source_for(case: &Json) -> String {
         // an event task whose SINGLE variable is itself an input: it must see this cycle's latched value
         s.push_str("  gtrig AT %IX7.6 : BOOL;\n");
     }
-    s.push_str("END_VAR\nTASK T0 (INTERVAL := T#1ms, PRIORITY := 0);\nTASK T1 (INTERVAL := T#1ms, PRIORITY := 1);\n");
+    if case["nested"].as_bool().unwrap_or(false) {
+        // a configuration-level FB instance with its own direct variables
+        s.push_str("  gfb : GIo;\n");
+    }
+    // sched 0: both tasks due in every 10 ms cycle, PB in the background; 1: T0 every 25 ms; 2: T0 25 ms, T1 35 ms and PB
+    // attached to T1 as well - cycles in which no program code runs at all
+    let sched = case["sched"].as_u64().unwrap_or(0);
+    let (i0, i1) = match sched {
+        1 => (25, 1),
+        2 => (25, 35),
+        _ => (1, 1),
+    };
+    s.push_str(&format!("END_VAR\nTASK T0 (INTERVAL := T#{i0}ms, PRIORITY := 0);\nTASK T1 (INTERVAL := T#{i1}ms, PRIORITY := 1);\n"));
     if event {
         s.push_str("TASK TE (SINGLE := gtrig, PRIORITY := 0);\nPROGRAM PE WITH TE : ProgE;\n");
     }
-    s.push_str("PROGRAM PA WITH T0 : ProgA;\nPROGRAM PM WITH T1 : ProgM;\nPROGRAM PB : ProgB;\nEND_CONFIGURATION\n\n");
+    s.push_str(&format!("PROGRAM PA WITH T0 : ProgA;\nPROGRAM PM WITH T1 : ProgM;\nPROGRAM PB{} : ProgB;\nEND_CONFIGURATION\n\n", if sched == 2 { " WITH T1" } else { "" }));
+    let nested = case["nested"].as_bool().unwrap_or(false);
+    if nested {
+        s.push_str(&format!("FUNCTION_BLOCK GIo\nVAR\n  gi AT %IX6.2 : BOOL;\nEND_VAR\nVAR_OUTPUT\n  gq AT %QX{}.4 : BOOL;\nEND_VAR\ngq := gi;\nEND_FUNCTION_BLOCK\n\n", OUT_LEN - 5));
+        // an FB instance inside an FB instance inside a program, with its own direct variables
+        s.push_str(&format!(
+            "FUNCTION_BLOCK Inner\nVAR\n  ni AT %IX6.1 : BOOL;\nEND_VAR\nVAR_OUTPUT\n  nq AT %QX{}.2 : BOOL;\nEND_VAR\nnq := ni;\nEND_FUNCTION_BLOCK\n\nFUNCTION_BLOCK Outer\nVAR\n  inner : Inner;\nEND_VAR\ninner();\nEND_FUNCTION_BLOCK\n\n",
+            OUT_LEN - 5
+        ));
+    }
     if event {
         s.push_str(&format!("PROGRAM ProgE\nVAR\n  ecnt AT %QW{} : UINT;\nEND_VAR\necnt := ecnt + UINT#1;\nEND_PROGRAM\n\n", OUT_LEN - 2));
     }
@@ -227,6 +248,9 @@ pub fn source_for(case: &Json) -> String {
             }
         }
         s.push_str("END_VAR\nVAR\n  t : DINT;\n");
+        if pi == 0 && nested {
+            s.push_str("  outer : Outer;\n");
+        }
         for (i, v) in inputs.iter().enumerate() {
             let used = v.outs.iter().any(|o| o.0 == pi) || (pi == 0 && v.pos.is_some());
             if !v.global && used {
@@ -275,6 +299,9 @@ pub fn source_for(case: &Json) -> String {
             if pi == 0 && v.pos.is_some() {
                 s.push_str(&format!("pos{i} := {name} > 0;\n"));
             }
+        }
+        if pi == 0 && nested {
+            s.push_str("outer();\ngfb();\n");
         }
         if pi == 1 {
             for j in 0..n_mem {
@@ -474,6 +501,10 @@ impl Check for C07Check {
         let event = extra.chance(1, 2) && next_byte <= OUT_LEN - 2;
         let same_names = extra.chance(1, 4);
         let enc = extra.chance(1, 3) && next_byte <= OUT_LEN - 4;
+        let mut sr = rng.fork("sched");
+        let sched = *sr.pick(&[0u64, 0, 0, 1, 2, 2]);
+        let nested = sr.chance(1, 3) && next_byte <= OUT_LEN - 5;
+        let enc = enc && sched == 0;
         let n_ops = match tier {
             Tier::Quick => o.usize(3, 25),
             Tier::Thorough => o.usize(5, 60),
@@ -497,7 +528,11 @@ impl Check for C07Check {
             }
         }
         let mut after = rng.fork("after");
-        let final_fault = o.below(8);
+        // a program fault needs its program to run in that very cycle: with slow tasks only driver faults are injected
+        let final_fault = match (o.below(8), sched) {
+            (0, 1 | 2) => 1,
+            (f, _) => f,
+        };
         if enc && (final_fault >= 3 || after.bool()) && after.bool() {
             // two cycles with g_div = 20: the first is an ordinary cycle, the second cannot encode its outputs
             ops.push(json!({"k": "cycle", "set_div": 20}));
@@ -519,6 +554,8 @@ impl Check for C07Check {
         };
         json!({
             "enc": enc,
+            "sched": sched,
+            "nested": nested,
             "after_restart": after_restart,
             "n_drivers": n_drivers,
             "same_names": same_names,
@@ -535,7 +572,7 @@ impl Check for C07Check {
     }
 
     fn run(&self, case: &Json, stats: &mut Stats) -> Result<(), Violation> {
-        for p in ["probe.overlapping_inputs", "probe.bit_adjacent_outputs", "probe.forced_input_seen", "probe.forced_output_published", "probe.io_write_latched", "probe.faulted_cycle_checked", "probe.input_changed_between_reads", "probe.bit_cleared_above_set_lower_bits", "probe.array_with_nonzero_lower_bound_bound_to_io", "probe.drivers_share_a_name", "probe.event_task_fired_on_latched_input", "probe.event_trigger_pulse_of_one_cycle", "probe.cycle_after_fault_and_restart_checked"] {
+        for p in ["probe.overlapping_inputs", "probe.bit_adjacent_outputs", "probe.forced_input_seen", "probe.forced_output_published", "probe.io_write_latched", "probe.faulted_cycle_checked", "probe.input_changed_between_reads", "probe.bit_cleared_above_set_lower_bits", "probe.array_with_nonzero_lower_bound_bound_to_io", "probe.drivers_share_a_name", "probe.event_task_fired_on_latched_input", "probe.event_trigger_pulse_of_one_cycle", "probe.cycle_after_fault_and_restart_checked", "probe.cycle_without_any_program_code", "probe.nested_fb_instance_io_checked"] {
             stats.add(p, 0);
         }
         let src = source_for(case);
@@ -556,6 +593,13 @@ impl Check for C07Check {
         let drivers = world::attach_drivers_named(&mut rt, n_drivers, same_names);
         let event = case["event"].as_bool().unwrap_or(false);
         let (mut prev_trig, mut ecnt) = (false, 0u64);
+        let sched = case["sched"].as_u64().unwrap_or(0);
+        let nested = case["nested"].as_bool().unwrap_or(false);
+        // the model's copy of every output-bound variable (published every cycle, changed only when its program runs)
+        let mut o_vals: Vec<Vec<u64>> = inputs.iter().map(|v| vec![0; v.outs.len()]).collect();
+        let mut pos_vals: Vec<bool> = vec![false; inputs.len()];
+        let mut aq_vals: Vec<Vec<u64>> = case["out_arrays"].as_array().cloned().unwrap_or_default().iter().map(|a| vec![0; a["elems"].as_array().map_or(0, Vec::len)]).collect();
+        let (mut nq_val, mut gq_val) = (false, false);
         let mut ovf_val = 0u64;
         let debug = rt.enable_debug();
         {
@@ -798,12 +842,24 @@ impl Check for C07Check {
                     }
                     last_delivered = delivered;
                     if res.is_ok() || fault == Some("write_err") {
+                        // which programs ran in this cycle (C06 judges the schedule; here it is an observation)
+                        let ran_task = |t: &str| log.iter().any(|e| matches!(e, DriverEvent::Rt(s) if s == &format!("TaskStart:{t}")));
+                        let ran = [ran_task("T0"), ran_task("T1"), if sched == 2 { ran_task("T1") } else { true }];
+                        if !ran.iter().any(|r| *r) {
+                            stats.inc("probe.cycle_without_any_program_code");
+                        }
                         // every program copy of every input equals the value decoded from the latched bytes
                         let mut expected_out = out_model.clone();
                         for (ii, v) in inputs.iter().enumerate() {
                             let want = decode(&in_model, &v.size, v.byte, v.bit);
                             let name = if v.global { format!("gin{ii}") } else { format!("in{ii}") };
                             for (oi, o) in v.outs.iter().enumerate() {
+                                if !ran[o.0] {
+                                    // the program did not run: its variable keeps its value and is published again
+                                    encode(&mut expected_out, &v.size, o.1, o.2, o_vals[ii][oi]);
+                                    continue;
+                                }
+                                o_vals[ii][oi] = want;
                                 // the variable the program read
                                 let got_in = if v.global {
                                     rt.storage().get_global(&name).cloned()
@@ -827,8 +883,22 @@ impl Check for C07Check {
                                 encode(&mut expected_out, &v.size, o.1, o.2, want);
                             }
                             if let Some((b, bit)) = v.pos {
-                                encode(&mut expected_out, "X", b, bit, u64::from(positive(&v.ty, &v.size, want)));
+                                if ran[0] {
+                                    pos_vals[ii] = positive(&v.ty, &v.size, want);
+                                }
+                                encode(&mut expected_out, "X", b, bit, u64::from(pos_vals[ii]));
                             }
+                        }
+                        if nested {
+                            if ran[0] {
+                                nq_val = decode(&in_model, "X", 6, 1) == 1;
+                                stats.inc("probe.nested_fb_instance_io_checked");
+                            }
+                            encode(&mut expected_out, "X", OUT_LEN - 5, 2, u64::from(nq_val));
+                            if ran[0] {
+                                gq_val = decode(&in_model, "X", 6, 2) == 1;
+                            }
+                            encode(&mut expected_out, "X", OUT_LEN - 5, 4, u64::from(gq_val));
                         }
                         for (fi, f) in forced_out.iter().enumerate() {
                             if let (Some(b), Some(o)) = (f, inputs[fi].outs.first()) {
@@ -838,14 +908,16 @@ impl Check for C07Check {
                         }
                         for j in 0..n_mem {
                             let cur = decode(&mem_model, "W", 2 * j, 0);
-                            encode(&mut mem_model, "W", 2 * j, 0, (cur + 1) & 0xffff);
+                            encode(&mut mem_model, "W", 2 * j, 0, (cur + u64::from(ran[1])) & 0xffff);
                         }
                         // partial (bit) writes into bit-string outputs: only the addressed bit of the variable changes
                         let pbit = decode(&in_model, "X", 7, 7);
                         for (k, bw) in case["bitwords"].as_array().cloned().unwrap_or_default().iter().enumerate() {
                             let bit = bw["bit"].as_u64().unwrap_or(0);
                             if k < bitword_vals.len() {
-                                if pbit == 1 {
+                                if !ran[1] {
+                                    // unchanged, published again
+                                } else if pbit == 1 {
                                     bitword_vals[k] |= 1u64 << bit;
                                 } else {
                                     bitword_vals[k] &= !(1u64 << bit);
@@ -858,19 +930,21 @@ impl Check for C07Check {
                         }
                         // arrays bound to a direct address: element j lives at base + j * element size, whatever the lower bound
                         let in_arrays = case["in_arrays"].as_array().cloned().unwrap_or_default();
-                        for a in case["out_arrays"].as_array().cloned().unwrap_or_default() {
+                        for (ai, a) in case["out_arrays"].as_array().cloned().unwrap_or_default().iter().enumerate() {
                             let size = a["size"].as_str().unwrap_or("W").to_string();
                             let w = width(&size);
                             let base = a["byte"].as_u64().unwrap_or(0) as usize;
                             for (j, e) in a["elems"].as_array().cloned().unwrap_or_default().iter().enumerate() {
-                                let val = match e["from"].as_u64() {
-                                    Some(src_j) if !in_arrays.is_empty() => {
-                                        let ib = in_arrays[0]["byte"].as_u64().unwrap_or(0) as usize;
-                                        decode(&in_model, &size, ib + src_j as usize * w, 0)
-                                    }
-                                    _ => e["c"].as_u64().unwrap_or(0),
-                                };
-                                encode(&mut expected_out, &size, base + j * w, 0, val);
+                                if ran[1] {
+                                    aq_vals[ai][j] = match e["from"].as_u64() {
+                                        Some(src_j) if !in_arrays.is_empty() => {
+                                            let ib = in_arrays[0]["byte"].as_u64().unwrap_or(0) as usize;
+                                            decode(&in_model, &size, ib + src_j as usize * w, 0)
+                                        }
+                                        _ => e["c"].as_u64().unwrap_or(0),
+                                    };
+                                }
+                                encode(&mut expected_out, &size, base + j * w, 0, aq_vals[ai][j]);
                             }
                             if a["lo"].as_i64().unwrap_or(0) != 0 {
                                 stats.inc("probe.array_with_nonzero_lower_bound_bound_to_io");
@@ -897,7 +971,7 @@ impl Check for C07Check {
                             encode(&mut expected_out, "W", OUT_LEN - 2, 0, ecnt);
                         }
                         if case["enc"].as_bool().unwrap_or(false) {
-                            if enc_active {
+                            if enc_active && ran[2] {
                                 ovf_val += 20000;
                             }
                             encode(&mut expected_out, "W", OUT_LEN - 4, 0, ovf_val & 0xffff);
